@@ -341,3 +341,45 @@ func (g *G) bytes(n int, mode int) []byte {
 	}
 	return b
 }
+
+// ---- result retention: a returned slice belongs to the caller. After every call the PREVIOUS result of the
+// same operation is formatted again (it must not have changed: it would if the library kept it as scratch or
+// cache) and is then overwritten with junk (a library that handed out its own internal state now holds junk).
+
+type retainedResult struct {
+	str      string
+	reformat func() string
+	scribble func()
+}
+
+var retained = map[string]*retainedResult{}
+
+func retainU64s(op string, r []uint64) string {
+	s := showU64s(r)
+	return retain(op, s, func() string { return showU64s(r) }, func() {
+		for i := range r {
+			r[i] = 0xdeadbeefdeadbeef
+		}
+	})
+}
+
+func retainI32s(op string, r []int32) string {
+	s := showI32s(r)
+	return retain(op, s, func() string { return showI32s(r) }, func() {
+		for i := range r {
+			r[i] = -0x21524111
+		}
+	})
+}
+
+func retain(op, s string, reformat func() string, scribble func()) string {
+	out := s
+	if prev, ok := retained[op]; ok {
+		if now := prev.reformat(); now != prev.str {
+			out = "EARLIER-RESULT-CHANGED-BY-THIS-CALL(" + op + "):" + s
+		}
+		prev.scribble()
+	}
+	retained[op] = &retainedResult{s, reformat, scribble}
+	return out
+}
